@@ -345,9 +345,13 @@ class Forcing:
         from .mir import norm_name
         ty = (b._place_type(st["rv"]["place"]) or "").lstrip("&").replace("mut ", "")
         adt = b.prog.adts.get(norm_name(ty))
-        if not adt or idx >= len(adt.get("variants", [])):
+        if not adt:
             return None
-        return self.atom(("isvar", x, idx, norm_name(ty), adt["variants"][idx]["name"]))
+        for i, v in enumerate(adt.get("variants", [])):
+            dv = v.get("discr", "")
+            if (str(dv) if dv != "" else str(i)) == str(idx):
+                return self.atom(("isvar", x, idx, norm_name(ty), v["name"]))
+        return None
 
     def reachable(self, bb):
         return bb in self.reach
